@@ -299,7 +299,7 @@ fn obtain_get(c: &mut Ctx, ch: &Channel) -> Option<Get> {
         body: vec![9; 10],
         message_count: 3,
     };
-    c.h.with(|st| st.reflex.get_answers.entry(chid).or_default().push_back(Some(m)));
+    c.h.with(|st| st.reflex.get_answers.entry(chid).or_default().push_back(Some((m, None))));
     let q = c.s();
     let no_ack = c.r.bool();
     c.push(chid, "basic_get", b_get(&q, no_ack));
